@@ -20,7 +20,10 @@ def Valid (P : Params) : Prop :=
 instance (P : Params) : Decidable (Valid P) := by unfold Valid; infer_instance
 
 /-- the source shapes the hand-written branches of the model were read from: (case list, statements)
-of the five type switches, and the bodies of the small functions -/
+of the five type switches, and the bodies of the small functions. The extractor prints them
+alpha-normalised (receiver `_r`, parameters `_p0, _p1, …` by position, locals `_v0, _v1, …` by first
+occurrence in the fragment, resolved with go/types) and with the arguments of `panic` elided, so that
+renaming a local or rewording a panic message changes nothing here. -/
 structure Tables where
   setBody : List (String × String)
   bodyToInt : List (String × String)
@@ -37,8 +40,6 @@ structure Tables where
   refuse : String
   refuseWith : String
   unmarshalErr : String
-  v1Guard : String
-  v2Guard : String
 
 def tables : Tables :=
   { setBody := Gen.C07.setBodyKeys.zip Gen.C07.setBodyBodies
@@ -49,8 +50,7 @@ def tables : Tables :=
     encodeInt64 := Gen.C07.encodeInt64Src, encodeUint64 := Gen.C07.encodeUint64Src
     errno := Gen.C07.errnoSrc, setErrno := Gen.C07.setErrnoSrc, new := Gen.C07.newSrc
     replyWith := Gen.C07.replyWithSrc, reply := Gen.C07.replySrc, refuse := Gen.C07.refuseSrc
-    refuseWith := Gen.C07.refuseWithSrc, unmarshalErr := Gen.C07.unmarshalErrBranch
-    v1Guard := Gen.C07.codecV1BodyGuard, v2Guard := Gen.C07.codecV2BodyGuard }
+    refuseWith := Gen.C07.refuseWithSrc, unmarshalErr := Gen.C07.unmarshalErrBranch }
 
 def keys (t : List (String × String)) : List String := t.map Prod.fst
 
@@ -59,56 +59,56 @@ def ValidSetBody (T : Tables) : Prop :=
   keys T.setBody = ["int", "uint", "int8", "int16", "int32", "uint8", "uint16", "uint32", "uint64",
     "float32", "nil", "bool", "int64, float64, string, []byte, proto.Message", "default"] ∧
   ["int", "uint", "int8", "int16", "int32", "uint8", "uint16", "uint32", "uint64"].map (T.setBody.lookup ·) =
-    List.replicate 9 (some "m.Body_ = int64(v)") ∧
-  T.setBody.lookup "float32" = some "m.Body_ = float64(v)" ∧
-  T.setBody.lookup "nil" = some "m.Body_ = nil" ∧
-  T.setBody.lookup "bool" = some "if v { m.Body_ = int64(1) } else { m.Body_ = int64(0) }" ∧
-  T.setBody.lookup "int64, float64, string, []byte, proto.Message" = some "m.Body_ = val" ∧
-  T.setBody.lookup "default" = some "panic(fmt.Sprintf(\"cannot set body as %T\", val))"
+    List.replicate 9 (some "_r.Body_ = int64(_v0)") ∧
+  T.setBody.lookup "float32" = some "_r.Body_ = float64(_v0)" ∧
+  T.setBody.lookup "nil" = some "_r.Body_ = nil" ∧
+  T.setBody.lookup "bool" = some "if _v0 { _r.Body_ = int64(1) } else { _r.Body_ = int64(0) }" ∧
+  T.setBody.lookup "int64, float64, string, []byte, proto.Message" = some "_r.Body_ = _p0" ∧
+  T.setBody.lookup "default" = some "panic(...)"
 instance (T : Tables) : Decidable (ValidSetBody T) := by unfold ValidSetBody; infer_instance
 
-/-- the typed views: the cases the model mirrors (everything but the proto.Message bodies) -/
+/-- the typed views: exactly the cases the model computes. Not pinned: the proto.Message cases and
+the conversions the model declares `unmodelled` (int64(float64), float64(int64), ParseFloat) — only
+that those cases exist (the key lists), so that the `_ => panic` branches of the model stay right. -/
 def ValidViews (T : Tables) : Prop :=
   keys T.bodyToInt = ["int64", "float64", "string", "[]byte", "default"] ∧
-  T.bodyToInt.lookup "int64" = some "return v" ∧
-  T.bodyToInt.lookup "float64" = some "return int64(v)" ∧
-  T.bodyToInt.lookup "string" = some "if n, err := strconv.ParseInt(v, 10, 64); err != nil { panic(fmt.Sprintf(\"cannot convert packet %d body to int: %v\", m.Cmd, err)) } else { return n }" ∧
-  T.bodyToInt.lookup "[]byte" = some "switch len(v) { case 0: return 0 case 1: return int64(v[0]) case 2: return int64(binary.LittleEndian.Uint16(v)) case 4: return int64(binary.LittleEndian.Uint32(v)) case 8: return int64(binary.LittleEndian.Uint64(v)) default: panic(fmt.Sprintf(\"cannot convert %d bytes to integer\", len(v))) }" ∧
-  T.bodyToInt.lookup "default" = some "panic(fmt.Sprintf(\"cannot convert %T to integer\", v))" ∧
+  T.bodyToInt.lookup "int64" = some "return _v0" ∧
+  T.bodyToInt.lookup "string" = some "if _v0, _v1 := strconv.ParseInt(_v2, 10, 64); _v1 != nil { panic(...) } else { return _v0 }" ∧
+  T.bodyToInt.lookup "[]byte" = some "switch len(_v0) { case 0: return 0 case 1: return int64(_v0[0]) case 2: return int64(binary.LittleEndian.Uint16(_v0)) case 4: return int64(binary.LittleEndian.Uint32(_v0)) case 8: return int64(binary.LittleEndian.Uint64(_v0)) default: panic(...) }" ∧
+  T.bodyToInt.lookup "default" = some "panic(...)" ∧
   keys T.bodyToFloat = ["int64", "float64", "string", "[]byte", "default"] ∧
-  T.bodyToFloat.lookup "int64" = some "return float64(v)" ∧
-  T.bodyToFloat.lookup "float64" = some "return v" ∧
-  T.bodyToFloat.lookup "[]byte" = some "switch len(v) { case 4: b := binary.LittleEndian.Uint32(v) return float64(math.Float32frombits(b)) case 8: b := binary.LittleEndian.Uint64(v) return math.Float64frombits(b) default: panic(fmt.Sprintf(\"cannot convert %d bytes to float\", len(v))) }" ∧
-  T.bodyToFloat.lookup "default" = some "panic(fmt.Sprintf(\"cannot convert %T to float\", v))" ∧
+  T.bodyToFloat.lookup "float64" = some "return _v0" ∧
+  T.bodyToFloat.lookup "[]byte" = some "switch len(_v0) { case 4: _v1 := binary.LittleEndian.Uint32(_v0) return float64(math.Float32frombits(_v1)) case 8: _v2 := binary.LittleEndian.Uint64(_v0) return math.Float64frombits(_v2) default: panic(...) }" ∧
+  T.bodyToFloat.lookup "default" = some "panic(...)" ∧
   keys T.bodyToString = ["string", "[]byte", "int64", "float64", "proto.Message", "default"] ∧
-  T.bodyToString.lookup "string" = some "return v" ∧
-  T.bodyToString.lookup "[]byte" = some "return string(v)" ∧
-  T.bodyToString.lookup "int64" = some "return strconv.FormatInt(v, 10)" ∧
-  T.bodyToString.lookup "float64" = some "return strconv.FormatFloat(v, 'g', -1, 64)" ∧
-  T.bodyToString.lookup "default" = some "return fmt.Sprintf(\"%v\", v)" ∧
+  T.bodyToString.lookup "string" = some "return _v0" ∧
+  T.bodyToString.lookup "[]byte" = some "return string(_v0)" ∧
+  T.bodyToString.lookup "int64" = some "return strconv.FormatInt(_v0, 10)" ∧
+  T.bodyToString.lookup "float64" = some "return strconv.FormatFloat(_v0, 'g', -1, 64)" ∧
+  T.bodyToString.lookup "default" = some "return fmt.Sprintf(\"%v\", _v0)" ∧
   keys T.bodyToBytes = ["nil", "string", "[]byte", "int64", "float64", "proto.Message", "default"] ∧
   T.bodyToBytes.lookup "nil" = some "return nil" ∧
-  T.bodyToBytes.lookup "string" = some "return []byte(v)" ∧
-  T.bodyToBytes.lookup "[]byte" = some "return v" ∧
-  T.bodyToBytes.lookup "int64" = some "return encodeInt64(v)" ∧
-  T.bodyToBytes.lookup "float64" = some "return encodeUint64(math.Float64bits(v))" ∧
-  T.bodyToBytes.lookup "default" = some "panic(fmt.Sprintf(\"cannot convert %T to bytes\", v))" ∧
-  T.encodeInt64 = "var tmp [binary.MaxVarintLen64]byte; i := binary.PutVarint(tmp[:], n); return tmp[:i]" ∧
-  T.encodeUint64 = "var tmp [binary.MaxVarintLen64]byte; i := binary.PutUvarint(tmp[:], n); return tmp[:i]"
+  T.bodyToBytes.lookup "string" = some "return []byte(_v0)" ∧
+  T.bodyToBytes.lookup "[]byte" = some "return _v0" ∧
+  T.bodyToBytes.lookup "int64" = some "return encodeInt64(_v0)" ∧
+  T.bodyToBytes.lookup "float64" = some "return encodeUint64(math.Float64bits(_v0))" ∧
+  T.bodyToBytes.lookup "default" = some "panic(...)" ∧
+  T.encodeInt64 = "var _v0 [binary.MaxVarintLen64]byte; _v1 := binary.PutVarint(_v0[:], _p0); return _v0[:_v1]" ∧
+  T.encodeUint64 = "var _v0 [binary.MaxVarintLen64]byte; _v1 := binary.PutUvarint(_v0[:], _p0); return _v0[:_v1]"
 instance (T : Tables) : Decidable (ValidViews T) := by unfold ValidViews; infer_instance
 
-/-- error code, constructors, and the receiver's last step -/
+/-- error code, constructors, and the receiver's varint step. (When the codecs run that step — their
+body guard — is part of the codec model, C01: `bodyStepOnFlags`; `recvBody` is proved to be that
+model's decoded body in Lemmas/C07Codec.lean.) -/
 def ValidPacket (T : Tables) : Prop :=
-  T.errno = "if (m.Flg & fatchoy.PFlagError) != 0 { if v, ok := m.Body_.(int64); ok { return int32(v) } }; return 0" ∧
-  T.setErrno = "m.Flg |= fatchoy.PFlagError; m.SetBody(int64(ec))" ∧
-  T.new = "return &Packet{ Type_: fatchoy.PTypePacket, Cmd: command, Flg: flag, Seq_: seq, Body_: body, }" ∧
-  T.replyWith = "var pkt = New(command, m.Seq_, m.Flg, body); pkt.Type_ = m.Type_; pkt.Node_ = m.Node_; pkt.Refers_ = m.Refers_; return m.endpoint.SendPacket(pkt)" ∧
-  T.reply = "var mid = GetMessageIDOf(ack); if mid == 0 { mid = m.Cmd }; return m.ReplyWith(mid, ack)" ∧
-  T.refuse = "var ackMsgId = GetPairingAckID(m.Cmd); if ackMsgId == 0 { ackMsgId = m.Cmd }; return m.RefuseWith(ackMsgId, errno)" ∧
-  T.refuseWith = "var pkt = New(command, m.Seq_, m.Flg|fatchoy.PFlagError, nil); pkt.Type_ = m.Type_; pkt.Node_ = m.Node_; pkt.Refers_ = m.Refers_; pkt.SetErrno(errno); return m.endpoint.SendPacket(pkt)" ∧
-  T.unmarshalErr = "if (flag & fatchoy.PFlagError) != 0 { x, _ := binary.Varint(body) pkt.SetBody(x) } else { pkt.SetBody(body) }" ∧
-  T.v1Guard = "if len(body) > 0 || pkt.Flag()&(fatchoy.PFlagCompressed|fatchoy.PFlagEncrypted) != 0 { return unmarshalPacketBody(body, decrypt, pkt) }" ∧
-  T.v2Guard = "if len(body) > 0 || pkt.Flag()&(fatchoy.PFlagCompressed|fatchoy.PFlagEncrypted) != 0 { return unmarshalPacketBody(body, decrypt, pkt) }"
+  T.errno = "if (_r.Flg & fatchoy.PFlagError) != 0 { if _v0, _v1 := _r.Body_.(int64); _v1 { return int32(_v0) } }; return 0" ∧
+  T.setErrno = "_r.Flg |= fatchoy.PFlagError; _r.SetBody(int64(_p0))" ∧
+  T.new = "return &Packet{ Type_: fatchoy.PTypePacket, Cmd: _p0, Flg: _p2, Seq_: _p1, Body_: _p3, }" ∧
+  T.replyWith = "var _v0 = New(_p0, _r.Seq_, _r.Flg, _p1); _v0.Type_ = _r.Type_; _v0.Node_ = _r.Node_; _v0.Refers_ = _r.Refers_; return _r.endpoint.SendPacket(_v0)" ∧
+  T.reply = "var _v0 = GetMessageIDOf(_p0); if _v0 == 0 { _v0 = _r.Cmd }; return _r.ReplyWith(_v0, _p0)" ∧
+  T.refuse = "var _v0 = GetPairingAckID(_r.Cmd); if _v0 == 0 { _v0 = _r.Cmd }; return _r.RefuseWith(_v0, _p0)" ∧
+  T.refuseWith = "var _v0 = New(_p0, _r.Seq_, _r.Flg|fatchoy.PFlagError, nil); _v0.Type_ = _r.Type_; _v0.Node_ = _r.Node_; _v0.Refers_ = _r.Refers_; _v0.SetErrno(_p1); return _r.endpoint.SendPacket(_v0)" ∧
+  T.unmarshalErr = "if (_v0 & fatchoy.PFlagError) != 0 { _v1, _ := binary.Varint(_p0) _p2.SetBody(_v1) } else { _p2.SetBody(_p0) }"
 instance (T : Tables) : Decidable (ValidPacket T) := by unfold ValidPacket; infer_instance
 
 /-! ### bit-vector facts -/
@@ -202,35 +202,6 @@ def intValue : GoVal → Option Int
   | .uint v => some v.toNat | .u8 v => some v.toNat | .u16 v => some v.toNat
   | .u32 v => some v.toNat | .u64 v => some v.toNat
   | _ => none
-
-/-- the shape a full statement needs from the codec model (C01): reading a frame yields the flag byte
-and the plain body bytes that `unmarshalPacketBody`'s tail turns into the body. The V1/V2 instances
-belong to Model/Codec.lean, which is not part of this tree yet. -/
-structure Decoder where
-  Stream : Type
-  /-- `ReadPacket`: on success the flag (codec bits cleared) and the decrypted, decompressed body bytes -/
-  read : Stream → Option (BitVec 8 × Bytes)
-
-/-- a wire in the sense this file can state without the codec model: something that carries the
-flag byte and the body bytes of a frame (`send`), from which the receiver gets them back (`recv`) -/
-structure Wire where
-  Frame : Type
-  send : BitVec 8 → Bytes → Frame
-  recv : Frame → Option (BitVec 8 × Bytes)
-
-/-- the law the codec model has to supply: flag (with compress/encrypt bits clear) and body arrive intact -/
-def Wire.Faithful (W : Wire) : Prop := ∀ f b, W.recv (W.send f b) = some (f, b)
-
-/-- what the receiver's packet looks like after `p` went through `W` -/
-def received (P : Params) (W : Wire) (p : Packet) : Res Packet :=
-  match bodyToBytes P p.body with
-  | .ok raw =>
-    match W.recv (W.send p.flg raw) with
-    | some (f, b) => .ok { cmd := p.cmd, seq := p.seq, typ := 0, flg := f, node := 0,
-                           body := recvBody P f b, refers := [], endpoint := none }
-    | none => .panic
-  | .panic => .panic
-  | .unmodelled => .unmodelled
 
 /-- a multicast request with references, bound to endpoint 3 -/
 def sampleRequest : Packet :=
